@@ -379,3 +379,25 @@ func VString(v *ast.Value) string { panic("ghost") }
 //@ ensures result != nil
 //@ modifies fresh
 //@ end
+
+// ---- C05: "it does not panic": the remaining functions of the package under safety-only contracts ----
+
+//@ func (SanitizeNodeMergerFunc).Merge
+//@ props C05 C03
+//@ requires forall(k, 0, len(inputs), wfInput(inputs[k]))
+//@ end
+
+//@ func (TypeURLMap).GetURLs
+//@ props C05 C04 C07
+//@ requires wfTM(t)
+//@ end
+
+//@ func (TypeURLMap).GetForType
+//@ props C05 C04 C07
+//@ requires wfTM(t)
+//@ end
+
+//@ func mergeDescriptions
+//@ props C05 C03
+//@ requires a != nil && b != nil
+//@ end
